@@ -214,6 +214,8 @@ def parseOpt (ts : List String) : Opt :=
       | [t, i] => some { ty := natOf t, id := natOf i } | _ => none))
   | ["typedsub", "nil", st] => .typedSub none (unTilde st)
   | ["typedsub", ty, id, st] => .typedSub (some { ty := natOf ty, id := natOf id }) (unTilde st)
+  -- `(&Value{Name, Type, Subtype, Value}).Arg()`
+  | ["value", n, ty, id, st] => valueArg (unTilde n) (unTilde st) { ty := natOf ty, id := natOf id }
   | ["nil"] => .nilOpt
   | _ => .other
 
